@@ -26,12 +26,15 @@ import c09lib as L9
 
 PID = "C01"
 TREES = C.SCRATCH / "eventlist" / "trees"
-LAYOUT = b"3"
+LAYOUT = b"4"
 MODEL_VO = ["EventList/Key.vo", "EventList/KeyProofs.vo", "EventList/Model.vo", "EventList/Refine.vo", "EventList/HeapqProofs.vo"]
 TRANSLATOR = C.VERIF / "translator" / "py2gallina_eventlist.py"
 AGREE = C.COQ / "EventList" / "GenAgree.v"
 _IMPORT = re.compile(r"^From PV Require Import ((?:EventList\.(?:Gen_EventList|GenAgree)\s*)+)\.\s*$", re.M)
 _THM = re.compile(r"^[ \t]*(?:Theorem|Lemma)\s+([A-Za-z0-9_']+)", re.M)
+# agreement theorems about definitions that need not exist: __cmp__ is a private helper of the six comparison methods (each of
+# them is proved equal to the model on its own, whatever it calls); when a tree has no such method the theorem is left out
+OPTIONAL = {"gen_SimEvent_cmp_eq"}
 # generated names a group of the translator stands for
 GROUP_NAMES = {
     "SimEvent.fields": r"gen_SimEvent_(?:time|priority|id)\b",
@@ -226,7 +229,7 @@ class EventListTree(L9.StatsTree):
     def broken(self):
         """None when the regenerated model is proved equal to the hand-written one; otherwise what no longer checks"""
         fails = self.info.get("failures", [])
-        thms = self.failed_theorems
+        thms = [t for t in self.failed_theorems if t["theorem"] not in OPTIONAL]
         if self.gen_error and not fails:
             return {"stage": "generated file does not compile", "detail": self.gen_error[-1200:], "theorems": []}
         if fails:
@@ -247,7 +250,9 @@ class EventListTree(L9.StatsTree):
                 "translated_text_sha1": self.info.get("translated_text_sha1"),
                 "translation_failures": self.info.get("failures", []),
                 "agreement_theorems": self.agreement_theorems(),
-                "agreement_theorems_not_checking": self.failed_theorems,
+                "agreement_theorems_not_checking": [t for t in self.failed_theorems if t["theorem"] not in OPTIONAL],
+                "optional_agreement_theorems_left_out": [t for t in self.failed_theorems if t["theorem"] in OPTIONAL],
+                "helpers_translated_at_the_call_site": self.info.get("inlined_helpers", []),
                 "timing": self.timing}
 
     def props_report(self, keep: bool = False) -> dict:
